@@ -10,4 +10,7 @@ Extraction "../ocaml/C13/model.ml" Anchor.anchor
   Model.from_data Model.from_header Model.add_part Model.is_complete Model.read_all Model.bit_array
   Model.add_all Model.bytes_to_hash Model.part_from_proto_real
   Model.encode_header Model.encode_commit_sig Model.header_hash Model.commit_hash Model.evidence_hash
-  Model.commit_validate Model.validate_basic.
+  Model.commit_validate Model.validate_basic
+  Model.verify_commit Model.validate_block Model.proposal_parts_ok
+  Model.key_meta Model.key_part Model.key_commit Model.key_seen Model.key_canon Model.key_height
+  Model.db_get Model.db_put Model.write_block Model.read_parts.
